@@ -39,6 +39,11 @@ SETS = {
                                        'argument': {'size': 8, 'byte_align': True, 'min': -128, 'max': 127}}}},
     'rele': {'operand_values': {'rel': {'type': 'relative_address', 'offset_from_instruction_end': True,
                                         'argument': {'size': 8, 'byte_align': True, 'min': -128, 'max': 127}}}},
+    'mem': {'operand_values': {
+        'ind': {'type': 'indirect_numeric', 'bytecode': {'value': 1, 'size': 2}, 'argument': {'size': 16, 'byte_align': True}},
+        'dfr': {'type': 'deferred_numeric', 'bytecode': {'value': 2, 'size': 2}, 'argument': {'size': 16, 'byte_align': True}},
+        'imm': {'type': 'numeric', 'bytecode': {'value': 0, 'size': 2}, 'argument': {'size': 8, 'byte_align': True}},
+    }},
     'regs': {'operand_values': {
         'r_a': {'type': 'register', 'register': 'a', 'bytecode': {'value': 0, 'size': 2}},
         'r_x': {'type': 'register', 'register': 'x', 'bytecode': {'value': 1, 'size': 2}},
@@ -49,7 +54,7 @@ SETS = {
 }
 # mnemonic -> operand sets; t12 is 12 bits, h3 is 3 bits: steps that are not whole bytes
 BASE = {'nop': [], 'h3': [], 'ldi': ['imm8'], 't12': ['imm8'], 'jmp': ['addr'], 'br': ['rel'], 'mov': ['regs', 'regs'],
-        'brx': ['regs', 'rel'], 'bre': ['rele'], 'brxe': ['regs', 'rele']}
+        'brx': ['regs', 'rel'], 'bre': ['rele'], 'brxe': ['regs', 'rele'], 'ldm': ['mem']}
 LABELS = ['start', 'loop', 'done', 'tbl', 'vec']
 
 
@@ -64,6 +69,7 @@ def base_isa(draw):
         'br': {'bytecode': {'value': draw(st.integers(0, 255)), 'size': 8}, 'operands': {'count': 1, 'operand_sets': {'list': ['rel']}}},
         'mov': {'bytecode': {'value': draw(st.integers(0, 15)), 'size': 4}, 'operands': {'count': 2, 'operand_sets': {'list': ['regs', 'regs']}}},
         'brx': {'bytecode': {'value': draw(st.integers(0, 63)), 'size': 6}, 'operands': {'count': 2, 'operand_sets': {'list': ['regs', 'rel']}}},
+        'ldm': {'bytecode': {'value': draw(st.integers(0, 63)), 'size': 6}, 'operands': {'count': 1, 'operand_sets': {'list': ['mem']}}},
         'bre': {'bytecode': {'value': draw(st.integers(0, 255)), 'size': 8}, 'operands': {'count': 1, 'operand_sets': {'list': ['rele']}}},
         'brxe': {'bytecode': {'value': draw(st.integers(0, 63)), 'size': 6}, 'operands': {'count': 2, 'operand_sets': {'list': ['regs', 'rele']}}},
     }
@@ -76,7 +82,7 @@ def base_isa(draw):
 @st.composite
 def _macro_variant(draw, nops_choices=(0, 1, 1, 2, 2)):
     nops = draw(st.sampled_from(nops_choices))
-    osets = [draw(st.sampled_from(['imm8', 'addr', 'rel', 'regs', 'regs'])) for _ in range(nops)]
+    osets = [draw(st.sampled_from(['imm8', 'addr', 'rel', 'regs', 'regs', 'mem'])) for _ in range(nops)]
     v = {}
     if nops or draw(st.booleans()):
         v['operands'] = {'count': nops}
@@ -100,6 +106,14 @@ def _macro_variant(draw, nops_choices=(0, 1, 1, 2, 2)):
                     slots.append(draw(st.sampled_from(LABELS)))
                 else:
                     slots.append(str(draw(st.integers(0, 255))))
+            elif slot_set == 'mem':
+                mem_like = [i for i, s_ in enumerate(osets) if s_ == 'mem']
+                if mem_like and k < 7:
+                    slots.append(f'@OP({draw(st.sampled_from(mem_like))})')
+                elif numeric_like and k < 9:
+                    slots.append('[' + f'@ARG({draw(st.sampled_from(numeric_like))})' + ']')
+                else:
+                    slots.append(draw(st.sampled_from(['[$1234]', '[[tbl]]', '7'])))
             else:
                 if reg_like and k < 5:
                     i = draw(st.sampled_from(reg_like))
@@ -162,6 +176,12 @@ def _operand(draw, sname, labels):
         if draw(st.booleans()):
             return {'k': 'expr', 'e': ['lab', draw(st.sampled_from(labels))]}
         return {'k': 'expr', 'e': isagen.value_ast(draw, draw(st.integers(0, 65535)), None)}
+    if sname == 'mem':
+        k = draw(st.sampled_from(['indnum', 'defnum', 'expr']))
+        if k == 'expr':
+            return {'k': 'expr', 'e': ['num', draw(st.integers(0, 255)), 'dec']}
+        e = ['lab', draw(st.sampled_from(labels))] if draw(st.booleans()) else ['num', draw(st.integers(0, 65535)), 'hex$']
+        return {'k': k, 'e': e}
     if sname == 'rel':
         e = ['lab', draw(st.sampled_from(labels))]
         if draw(st.integers(0, 3)) == 0:
@@ -205,7 +225,7 @@ def expand_invocation(isa, item):
         for n, (aid, alt, op) in enumerate(matched):
             kind = alt['type']
             if f'@ARG({n})' in s:
-                if kind in ('numeric', 'relative_address', 'address'):
+                if kind in ('numeric', 'relative_address', 'address', 'indirect_numeric', 'deferred_numeric'):
                     arg = exprs.render(op['e']).strip()
                 elif kind == 'indirect_register' and 'offset' in alt:
                     if op.get('off') is None:
